@@ -52,5 +52,14 @@ def _mk(pattern, depth, tier, timeout, types=True):
 
 
 OBLIGATIONS = []
-for pat in ("PP", "PV", "PDp", "DpP", "DdDp", "VDd", "PDdP", "PPP", "PPDp", "DpDpDp", "PDpP", "DpPP", "PDdDp", "PVDd", "DdPDp", "DwP", "PXP", "PWD", "CP", "PCP", "EPD", "ZP"):
-    OBLIGATIONS.append(_mk(pat, 3, "both", 900))
+from engine_gen import N3_HEAVY, N4, QUICK_PATTERNS  # noqa: E402
+
+for pat in QUICK_PATTERNS:
+    OBLIGATIONS.append(_mk(pat, 3, "both", 400))
+for pat in N3_HEAVY:
+    OBLIGATIONS.append(_mk(pat, 3, "thorough", 1500))
+for pat in N4:
+    OBLIGATIONS.append(_mk(pat, 3, "thorough", 2400))
+for pat in ("PDp", "DdP", "PPP"):
+    OBLIGATIONS.append(_mk(pat, 2, "both", 400))
+    OBLIGATIONS.append(_mk(pat, 1, "both", 400))
